@@ -30,7 +30,13 @@ RULE = ("family optprog: 28 hand-written programs over rarely used public API (c
         "grammar-generated task programs (profiles %s) each run under the default options and under a random subset of "
         "the boolean debug options with a scripted clock (1 us .. 2 h per reading), both builds; non-trivial = at least 2 "
         "tasks and 1 scheduler flush; distinct by hash of (configuration, programs, options)" % ", ".join(p for p, _ in MIX))
-TRUSTED = cc.TRUSTED_CORE + ["the scripted clock replaces asynq.scheduler.utime (module attribute)"]
+RULE += ("; plus family deepdump (checks/optprogs8.py: suspended chains of 30..3000 tasks under the default recursion limit, fans of "
+         "chains, fans of 600..2000 leaves under DUMP_SCHEDULER_STATE alone / with KEEP_DEPENDENCIES / COLLECT_PERF_STATS / every "
+         "per-step DUMP_* flag, the clock of the time-based state dump scripted and advanced by the program's slow steps "
+         "(1 us .. 1 h), small shapes with a dump at every scheduler iteration under random subsets), judged by direct "
+         "expectation (Drv/Families8.lean)")
+TRUSTED = cc.TRUSTED_CORE + ["the scripted clock replaces asynq.scheduler.utime (module attribute)",
+                             "family deepdump: the scripted clock replaces asynq.scheduler.time (module attribute read by try_time_based_dump)"]
 ASSUMPTIONS = cc.ASSUMPTIONS_CORE + ["diagnostic output (stdout/stderr) is not part of behaviour"]
 
 BOOL_OPTS = ["DUMP_PRE_ERROR_STATE", "DUMP_EXCEPTIONS", "DUMP_SCHEDULE_TASK", "DUMP_CONTINUE_TASK", "DUMP_SCHEDULE_BATCH",
@@ -119,6 +125,14 @@ def optprog6_cases(tier, rng):
     return cases
 
 
+def deepdump_cases(tier, rng):
+    """round 6 (checks/optprogs8.py, judged by Drv/Families8.lean mode deepdump): deep suspended chains (30 .. 3000 tasks, run
+    under the interpreter's default recursion limit) and wide fans under option sets containing DUMP_SCHEDULER_STATE, the
+    clock read by the time-based state dump scripted (asynq.scheduler.time replaced) and advanced by the program's slow steps"""
+    from checks import optprogs8
+    return optprogs8.deepdump_cases(tier, rng, BOOL_OPTS, gen_opts)
+
+
 def guard_cases(tier, rng):
     """second audit, item 1: programs that hit the MAX_TASK_STACK_SIZE guard (limit lowered in BOTH runs of the pair), each
     under two option sets: one random subset WITHOUT KEEP_DEPENDENCIES (every other option must stay inert after a guard reset
@@ -161,10 +175,13 @@ def plan(tier, seed):
         c["hook"] = "peek"
         cases.append(c)
     return cc.corpus(PID) + optprog_cases(tier, random.Random(seed * 1000003 + 21)) + optprog6_cases(tier, random.Random(seed * 1000003 + 23)) + \
-        guard_cases(tier, random.Random(seed * 1000003 + 22)) + cases[len(cc.corpus(PID)):]
+        guard_cases(tier, random.Random(seed * 1000003 + 22)) + deepdump_cases(tier, random.Random(seed * 1000003 + 24)) + cases[len(cc.corpus(PID)):]
 
 
 def run_case(case):
+    if case.get("special") == "deepdump":
+        from checks import optprogs8
+        return optprogs8.run_deepdump(case)
     if case.get("special") == "optprog":
         from checks import optprogs
         return optprogs.run_optprog(case)
@@ -240,6 +257,8 @@ def signature(case, v):
         sig += "/hook-" + case["hook"]
     if case.get("special") == "optprog":
         sig += "/program-" + case["prog"]
+    if case.get("special") == "deepdump":
+        return sig + ("/" + opts[0] if len(opts) == 1 else "")
     if len(opts) == 1:
         sig += "/" + opts[0]
     return sig
